@@ -74,7 +74,10 @@ def check(index, ctx):
         if blk:
             ctx.undecided("R1", f"{name}: defaulted vs explicit", f"construct outside the analysed subset: {blk[0]['loc']} `{blk[0]['text']}`", blk[0]["loc"])
             continue
-        same = se == sd and bool(se)
+        if not se or not sd:
+            ctx.undecided("R1", f"{name}: defaulted vs explicit", f"no main path of the {'explicit' if not se else 'defaulted'} call could be followed to its end", "")
+            continue
+        same = se == sd
         diff = ""
         if not same:
             only_d = sorted(sd - se)
